@@ -5,6 +5,7 @@ Property theorems only; helper lemmas live in `CtyModel/Lemmas`.
 -/
 import CtyModel.Lemmas.SetRefineRun
 import CtyModel.Lemmas.ValEqRules
+import CtyModel.Lemmas.ValEqSymm
 namespace CtyModel
 namespace C03
 
@@ -333,6 +334,30 @@ theorem rawEquals_trans (a b c : Value) (wa : a.wf = true) (wb : b.wf = true) (w
   rw [← hac]; exact this
 
 /-! ### Equals -/
+
+/-- **`Equals` is symmetric** — the two calls return the very same result, be it
+True, False or the unknown bool (so "incl. unknown results") — for any two
+well-formed mark-free values of plain types: same type or different types,
+known, null, unknown with any refinement, `DynamicVal`, nested.  (For marked
+operands `Equals` is this function on the deeply unmarked operands with the
+union of both mark sets re-applied.)  Besides symmetry of the member
+comparisons this needs that none of them panics: the map branch looks the keys
+of each side up in the other. -/
+theorem equals_symm (a b : Value) (wa : a.wf = true) (wb : b.wf = true) (pa : a.ty.plain = true)
+    (pb : b.ty.plain = true) (ma : a.containsMarked = false) (mb : b.containsMarked = false) :
+    equals a b = equals b a :=
+  equals_symm_of_wf a b wa wb pa pb ma mb
+
+/-- …and on such values of one type it never panics: it answers True, False or unknown. -/
+theorem equals_total (t : Ty) (a b : Payload) (hw : t.wf = true) (hp : t.plain = true)
+    (wa : a.wf t = true) (ma : a.containsMarked = false) (wb : b.wf t = true) (mb : b.containsMarked = false) :
+    ∃ acc, equals ⟨t, a⟩ ⟨t, b⟩ = .ok (accVal acc) := by
+  simp only [equals, Value.containsMarked, ma, mb, Bool.or_self, Bool.false_eq_true, if_false, equalsP]
+  obtain ⟨acc, h, _⟩ := equalsFuel_symm (max a.depth b.depth + 1) t a b hw hp ⟨wa, ma, by omega⟩ ⟨wb, mb, by omega⟩
+  exact ⟨acc, h⟩
+
+example : equals ⟨.list .number, .seq [.unk (.num .f none none), .n (Num.ofInt 1 64)]⟩ ⟨.list .number, .seq [.n (Num.ofInt 2 64), .n (Num.ofInt 2 64)]⟩
+    = .ok unkBool := by decide +kernel
 
 /-- Any two nulls are equal, whatever their types; a null differs from every known
 non-null value (either operand order). -/
